@@ -103,4 +103,16 @@ forwarding goroutine ends); the nodes above it block on its full input edge and 
 first, never gets to abort the UDF. -/
 def devUdfFail (i : Input) : Bool := udfAboveFailing i.chain
 
+/-- Is there a failing node with a node below it? -/
+def failingWithChild : List NodeShape → Bool
+  | [] => false
+  | .failing :: rest => !rest.isEmpty || failingWithChild rest
+  | _ :: rest => failingWithChild rest
+
+/-- finding `failed-udf-forwarder-not-joined`: UDFNode.runUDF returns the error of udf.Close() WITHOUT waiting for
+its forwarding goroutine (`<-forwardErr` is only reached when Close succeeded); node.start then closes the child
+edges while that goroutine may still be in edge.Forward: send on closed channel, the process dies. (Not in the
+model: the model's failing node is one process.) -/
+def devFailForward (i : Input) : Bool := failingWithChild i.chain
+
 end Kap.C07
